@@ -60,6 +60,9 @@ type Term struct {
 	Hi   int    // OpExtract hi / ZExt,SExt: added bits
 	Lo   int
 	D    int32 // depth of the term DAG below this node
+
+	ubm    uint64 // UBoundMemo cache (terms are immutable; set once by the goroutine that built the term)
+	ubmSet bool
 }
 
 var idCtr uint64
@@ -649,6 +652,81 @@ func UBound(t *Term, depth int) (uint64, bool) {
 	}
 	return full, true
 }
+// UBoundMemo is UBound without a depth limit, memoised per term: an upper bound of the unsigned
+// value of t that follows from the term structure alone (constants, zero extensions, sums that
+// cannot wrap, remainders by constants, ...). Linear in the size of the DAG on first use.
+func UBoundMemo(t *Term) uint64 {
+	if t.W == 0 || t.Arr || t.W > 64 {
+		return ^uint64(0)
+	}
+	full := mask(t.W)
+	switch t.Op {
+	case OpConst:
+		return t.Val
+	case OpVar:
+		return full
+	}
+	if t.ubmSet {
+		return t.ubm
+	}
+	r := full
+	arg := func(i int) uint64 { return UBoundMemo(t.Args[i]) }
+	switch t.Op {
+	case OpZExt:
+		r = arg(0)
+	case OpBVAnd:
+		r = arg(0)
+		if u := arg(1); u < r {
+			r = u
+		}
+	case OpBVAdd:
+		u0, u1 := arg(0), arg(1)
+		if u0+u1 >= u0 && u0+u1 <= full {
+			r = u0 + u1
+		}
+	case OpBVOr, OpBVXor:
+		m := arg(0) | arg(1)
+		for m&(m+1) != 0 {
+			m |= m >> 1
+		}
+		if m <= full {
+			r = m
+		}
+	case OpBVShl:
+		if c := t.Args[1]; c.IsConst() && c.Val < uint64(t.W) {
+			if u := arg(0); u <= full>>c.Val {
+				r = u << c.Val
+			}
+		}
+	case OpBVURem:
+		if b := t.Args[1]; b.IsConst() && b.Val != 0 {
+			r = b.Val - 1
+		} else {
+			r = arg(0)
+		}
+	case OpBVLShr, OpBVUDiv:
+		r = arg(0)
+	case OpIte:
+		r = arg(1)
+		if u := arg(2); u > r {
+			r = u
+		}
+	case OpExtract:
+		if t.Lo == 0 {
+			if u := arg(0); u <= full {
+				r = u
+			}
+		}
+	case OpSelect:
+		r = 0xFF
+	}
+	if r > full {
+		r = full
+	}
+	t.ubm, t.ubmSet = r, true
+	return r
+}
+
 func SDiv(a, b *Term) *Term { return bin(OpBVSDiv, a, b) }
 func SRem(a, b *Term) *Term { return bin(OpBVSRem, a, b) }
 func BAnd(a, b *Term) *Term { return bin(OpBVAnd, a, b) }
